@@ -35,6 +35,8 @@ BLOCK_KEYS = ("points", "pattern", "projection", "metadata", "validation", "valu
 
 def is_block_value(v, k=None):
     """written as KEY ... END: nested objects, lists of objects, key-value blocks, POINTS / PATTERN / PROJECTION"""
+    if k == "config":
+        return False        # CONFIG entries are keyword lines, not a KEY ... END block
     return isinstance(v, dict) or (isinstance(v, list) and v and all(isinstance(x, dict) for x in v)) or (k in BLOCK_KEYS and isinstance(v, list))
 
 
@@ -90,6 +92,32 @@ def run(ctx):
     seen_values = set()
     model_cases = []
     default_pp = PrettyPrinter()
+    def hunt_one(d, t, base, o):
+        """the property on one (dictionary, option tuple): load the formatted text, compare with the default formatting"""
+        dd = copy.deepcopy(d)
+        try:
+            pp = PrettyPrinter(**o)
+            t1 = pp.pprint(dd) if rng.random() < 0.9 else mappyfile.dumps(dd, **o)
+        except Exception as ex:
+            ctx.violation("dumps-raises-under-options:" + type(ex).__name__, "dumps raises %s under %r" % (type(ex).__name__, o), {"text": t, "options": o})
+            return
+        try:
+            got = rt.plain_all(sweep.fast_loads(t1))
+        except Exception as ex:
+            optname = next((k for k, v in sorted(o.items()) if v != PrettyPrinterDefaults.get(k)), "?")
+            ctx.violation("formatted-text-rejected:" + optname, "text formatted under %r is rejected: %s" % (o, str(ex)[:120]), {"text": t, "options": o, "formatted": t1})
+            return
+        if o["separate_complex_types"]:
+            r = same_modulo_separation(base, got)
+            if r:
+                what = r[1]
+                fp = "separate:moves-non-block:" + r[0].split("/")[-1].split("[")[0] if "non-block key was moved" in what else "separate:" + what.split(":")[0]
+                ctx.violation(fp, "separate_complex_types changed more than the position of block-valued keys at %s: %s" % r, {"text": t, "options": o, "formatted": t1})
+        elif not sweep.same(got, base):
+            diff = rt.first_diff(base, got)
+            optname = next((k for k, v in sorted(o.items()) if v != PrettyPrinterDefaults.get(k)), "?")
+            ctx.violation("options-change-content:" + optname, "loading text formatted under %r differs from the default formatting: %r" % (o, diff), {"text": t, "options": o, "formatted": t1})
+
     for i, t in enumerate(texts):
         try:
             d = sweep.fast_loads(t)
@@ -110,31 +138,9 @@ def run(ctx):
             ctx.note_case((i, tuple(sorted(o.items()))), nontrivial=len(t.split()) > 6)
             for k, v in o.items():
                 seen_values.add((k, v))
-            dd = copy.deepcopy(d)
-            try:
-                pp = PrettyPrinter(**o)
-                t1 = pp.pprint(dd) if rng.random() < 0.9 else mappyfile.dumps(dd, **o)
-            except Exception as ex:
-                ctx.violation("dumps-raises-under-options:" + type(ex).__name__, "dumps raises %s under %r" % (type(ex).__name__, o), {"text": t, "options": o})
-                continue
+            hunt_one(d, t, base, o)
             if len(model_cases) < ctx.budget(150, 1500) and rng.random() < 0.3:
-                model_cases.append((o, d))
-            try:
-                got = rt.plain_all(sweep.fast_loads(t1))
-            except Exception as ex:
-                ctx.violation("formatted-text-rejected:%s" % ",".join("%s=%r" % kv for kv in sorted(o.items()) if kv[1] != PrettyPrinterDefaults.get(kv[0]))[:60],
-                              "text formatted under %r is rejected: %s" % (o, str(ex)[:120]), {"text": t, "options": o, "formatted": t1})
-                continue
-            if o["separate_complex_types"]:
-                r = same_modulo_separation(base, got)
-                if r:
-                    what = r[1]
-                    fp = "separate:moves-non-block:" + r[0].split("/")[-1].split("[")[0] if "non-block key was moved" in what else "separate:" + what.split(":")[0]
-                    ctx.violation(fp, "separate_complex_types changed more than the position of block-valued keys at %s: %s" % r, {"text": t, "options": o, "formatted": t1})
-            elif not sweep.same(got, base):
-                diff = rt.first_diff(base, got)
-                optname = next((k for k, v in sorted(o.items()) if v != PrettyPrinterDefaults.get(k)), "?")
-                ctx.violation("options-change-content:" + optname, "loading text formatted under %r differs from the default formatting: %r" % (o, diff), {"text": t, "options": o, "formatted": t1})
+                model_cases.append((o, d, t, base))
     ctx.coverage["option_values_seen"] = len(seen_values)
     ctx.obligation("every value of every option exercised (9 indents, 2 spacers, 2 quotes, 3 newlines, 3 booleans)", len(seen_values) >= 9 + 2 + 2 + 3 + 6,
                    "%d values seen" % len(seen_values))
@@ -150,15 +156,24 @@ def run(ctx):
     # ---- correspondence under options
     if ctx.model_ok and model_cases:
         from corr import printer as P
-        outs = P.model_lines(model_cases)
+        outs = P.model_lines([(o, d) for o, d, _, _ in model_cases])
         n_bad = 0
-        for (o, d), m in zip(model_cases, outs):
+        suspects = []
+        for (o, d, t, base), m in zip(model_cases, outs):
             a = P.impl_lines(o, d)
             if a != m:
                 n_bad += 1
+                suspects.append((d, t, base))
                 ctx.violation("correspondence:O-lines-options", "printer model and PrettyPrinter disagree under %r" % (o,), {"options": o, "impl": repr(a)[:400], "model": repr(m)[:400]}, no_input=True)
         ctx.obligation("correspondence O-lines under %d (document, option tuple) pairs, incl. the dictionary after the call" % len(model_cases), n_bad == 0, "%d disagreements" % n_bad)
         ctx.count("traces_validated_against_impl", len(model_cases))
+        # the tie broke: search the implementation around the disagreeing documents with the FULL option product
+        for d, t, base in suspects[:3]:
+            for o in product:
+                if rt.excluded(d, o["quote"]) or (o["newlinechar"] == " " and o["end_comment"]):
+                    continue
+                hunt_one(d, t, base, o)
+            ctx.count("escalated_full_products")
     ctx.sample({"options": product[137]})
     ctx.sample({"document": texts[-1][:200]})
 
